@@ -269,3 +269,4 @@ def best_alignment_contract(name, soft):
 
 
 best_alignment_contract("get_best_alignment", soft=False)
+best_alignment_contract("get_best_soft_alignment", soft=True)
